@@ -189,7 +189,7 @@ def rule_space(ctx, rule):
         """PATTERN.sub(callback, .) where PATTERN matches every whitespace character (as str.strip() / str.split()
         understand it) and the callback percent-encodes the match"""
         op = F.regex_op(x)
-        if op is None or op[1] != "sub" or len(op[2]) < 2 or op[2][0][0] != "funcref":
+        if op is None or op[1] != "sub" or len(op[2]) < 2 or op[2][0][0] not in ("funcref", "global"):
             return False
         mod, _, name = op[0].rpartition(".")
         try:
@@ -201,9 +201,9 @@ def rule_space(ctx, rule):
                 return False
             cmod, _, cname = op[2][0][1].rpartition(".")
             import re as _re
-            from ..microeval import run_function
-            cb = ctx.repo.mod(cmod).func(cname)
-            return all(run_function(ctx.repo, cb, [_re.match(r"[\s\S]", ch)]) == exp for ch, exp in ((" ", "%20"), ("\xa0", "%C2%A0"), ("\t", "%09"), ("\u3000", "%E3%80%80")))
+            from ..microeval import module_value, call_value
+            cb = module_value(ctx.repo, cmod, cname)  # a def, or a callable built at module level (closure factory, partial)
+            return all(call_value(ctx.repo, cb, [_re.match(r"[\s\S]", ch)]) == exp for ch, exp in ((" ", "%20"), ("\xa0", "%C2%A0"), ("\t", "%09"), ("\u3000", "%E3%80%80")))
         except (Unknown, AnalysisError, Unsupported):
             return False
 
@@ -427,7 +427,9 @@ def rule_upper_quoted(ctx, rule):
                     cbok = garg == () or garg == (("const", 0),)
             except AnalysisError:
                 pass
-        ctx.ob(rule, "callback-uppercases-whole-match", cbok, "the substitution callback of upper_quoted is not `match.group(0).upper()`", q.site(q.func("upper_quoted").node))
+        # the behaviour table above already decided upper_quoted on every short string: the callback's spelling is only
+        # demanded when that table could not be interpreted
+        ctx.ob(rule, "callback-uppercases-whole-match", cbok or (n_tab > 0 and bad is None), "the substitution callback of upper_quoted is not `match.group(0).upper()`", q.site(q.func("upper_quoted").node))
 
 
 def rule_c1(ctx, rule, sets):
